@@ -19,7 +19,7 @@ for name in sorted(os.listdir(sdir)):
 with open(os.path.join(sdir, "README.md"), "w") as f:
     f.write("# Seeded changes (written by fresh sub-agents that saw only the property text and a scratch worktree)\n\n")
     f.write("Each directory holds `patch.diff` (applies to /repo HEAD), `demo.py` (exits 0 on the original, 1 with the change) and `meta.json`\n(the agent's description + what we ran when confirming it: demo on clean/patched copy, repository test suite with the patch, our checks).\n")
-    f.write("`first run` = verdict of the property's own check at the time the seed arrived (before any strengthening it triggered);\n`caught by (now)` = checks whose QUICK tier reports a VIOLATION with the current machinery (tools/seed_matrix.py, VERIF_SEED=1).\n\n")
+    f.write("`first run` = verdict of the property's own check at the time the seed arrived (before any strengthening it triggered);\n`caught by (now)` = checks whose QUICK tier reports a VIOLATION with the current machinery (tools/seed_matrix.py, VERIF_SEED=1) — filled for the 40 seeds of rounds 1-2 only; for later seeds the `first run` column lists every run of the property's own check in order, and its last entry is the verdict of the machinery as it is now.\n\n")
     f.write("| seed | property | change | needs | test suite with change | first run | caught by (now) |\n|---|---|---|---|---|---|---|\n")
     for r in rows:
         f.write("| " + " | ".join(str(x) for x in r) + " |\n")
